@@ -2,7 +2,8 @@
 
 proof:          coq/props/C02.v over coq/theories/Grammar.v (generator grammar G: AST, layout, render, text_of,
                 expected_model), Skeleton.v/Upto.v (C04: statement skeleton), Selector.v (C16: selector machine)
-tie:            the texts, tokens and expected models come from the extracted Coq definitions (ocaml/grammar_driver.ml);
+tie:            translate/tokenizer.py + translate/selconsts.py regenerate the tables under the shared tokenizer and selector
+                models; the texts, tokens and expected models come from the extracted Coq definitions (ocaml/grammar_driver.ml);
                 three-way comparison per generated derivation:
                   (1) expected_model sh (the specification, Gallina)
                   (2) the modelled layers: Tokenizer.tokenize (text) = render sh lay ++ [EOF]  (hypothesis tokenize_render),
@@ -717,17 +718,10 @@ def witness_of(case, m, v):
     return {"sheet_words": words_of(case[0]), "layout": case[1], "text": m[0], "fails": v[0], "detail": v[1]}
 
 
-def check_text(text, expected=None, expected_nc=None):
-    models = impl_models(text)
-    if expected is None:
-        # no stored expectation: the four configurations must at least agree modulo comments
-        return None
-    return judge(text, expected, expected_nc, models)
-
-
 def run(ctx):
     thorough = ctx.tier == "thorough"
     rng = ctx.rng
+    ctx.regen("tokenizer", "selconsts")     # the tables the shared tokenizer / selector models of the cone are built on
     b = ctx.coq_build("props/C02.v")
     binary = ctx.ocaml_build("grammar")
     cp = VERIF / "corpus" / "C02.json"
